@@ -391,6 +391,11 @@ func enumerate(emit func(*config)) {
 			}
 		}
 	}
+	// boundary-operand programs (gas bounded so that no accepted memory expansion is large)
+	bound := []variant{{kind: "call", gas: 100000}, {kind: "call", gas: 10000000}, {kind: "static", gas: 100000}}
+	for _, code := range boundaryPrograms() {
+		rawCfg("bound", code, bound)
+	}
 	// precompiles called directly. X is the configured reward manager, so precompile 9 runs for it.
 	// EVM.StaticCall is not issued to precompile 9: no top-level read-only entry exists in the node and
 	// the reward manager (the genesis founder) is not a contract, so a read-only frame never runs it.
@@ -587,3 +592,5 @@ func main() {
 	r.Extra["outcomes"] = keys
 	core.Finish(r)
 }
+
+func thoroughTier() bool { return core.Thorough() }
